@@ -26,7 +26,10 @@ VARIANTS = [
     "stall / compressed / encrypted servers",
     "status result handlers that reuse the object",
     "write op (queued packet in play)",
-    "option writes logged as stale actions"
+    "option writes logged as stale actions",
+    "unserialisable queued packet (write_bad)",
+    "disconnect() || connect() after a rendezvous (O9)",
+    "calling thread stalled at its n-th pre-emption point inside an API call"
 ]
 RUNS = {'quick': 14000, 'thorough': 500000}
 WALL_CAP = {'quick': 200, 'thorough': 3300}
@@ -151,6 +154,22 @@ def tape_for(scenario, seed, index):
 
 
 def scenario_for(seed, index, tier):
+    sc = _scenario_for(seed, index, tier)
+    rs = make_rng('stall', ID, seed, index)
+    if not sc.get('enumerated') and 'directed' not in sc and \
+            rs.random() < 0.12:
+        # fault: one calling thread is descheduled for a while at its n-th
+        # pre-emption point inside one of its API calls (holding whatever
+        # it holds at that moment)
+        sc['stall'] = {'api': rs.choice(['connect', 'connect', 'disc',
+                                         'disc_imm', 'status']),
+                       'at': rs.randrange(0, 200),
+                       'us': rs.choice([1000, 60000, 1000000]),
+                       'skip': rs.choice([0, 0, 1])}
+    return sc
+
+
+def _scenario_for(seed, index, tier):
     plan = directed_plan(tier)
     if index < len(plan):
         k, pos, v = plan[index]
@@ -869,9 +888,21 @@ def check(scenario, w, st, res):
                     len(live_at(r.r.inv)) <= 1 and \
                     (not r.net_thread or last.tid == r.tid):
                 ob()
+                sub = 'handover-pending' if r.pending else 'other'
+                if refused and sub == 'other' and \
+                        len(scenario['allowed']) > 1 and any(
+                            last.r.inv < seq < r.r.inv and
+                            kind in ('connect', 'connect-refused') and
+                            0 <= tid < len(sim.threads) and
+                            sim.threads[tid].kind == 'net'
+                            for seq, tid, kind, dd, vt in hist):
+                    # the version negotiation opened its login connection
+                    # while that disconnect() was in progress: the
+                    # disconnect() found nothing to close and was lost
+                    # (known finding 2 seen from the caller's side)
+                    sub = 'internal-negotiation'
                 if refused:
-                    V.append(('C16/refused-after-disconnect:%s' % (
-                        'handover-pending' if r.pending else 'other'),
+                    V.append(('C16/refused-after-disconnect:%s' % sub,
                               {'op': r.op, 'call_index': i,
                                'by': str(r.by)}))
         # must-refuse: a clean long session is definitely active
